@@ -220,6 +220,8 @@ SerOnly(S) == {Slice(t) : t \in {x \in S : ElemOk(x)}}
               \cup {SerIter(t) : t \in {x \in S : ElemOk(x) /\ IsZeroCopyTrait(x)}}
               \cup {G(Slice(t)) : t \in {x \in S : ElemOk(x)}}
               \cup {G(SerIter(t)) : t \in {x \in S : ElemOk(x) /\ IsZeroCopyTrait(x)}}
+              \* a slice of slices (deep-copy items that are themselves slice references): the vector of vectors
+              \cup {Slice(Slice(U16)), Slice(Slice(U64)), Slice(Slice(ZPad))}
 
 \* nested types in which an ε-copied (borrowed) sequence is followed by more data
 U128 == Prim("u128")
